@@ -107,6 +107,21 @@ def _shallow_copy(exception: Exception) -> Exception:
         return exception
 
 
+def _message_of(exception: Exception) -> str:
+    """
+    Returns the message of the exception, falling back on its type name when
+    the exception can't be turned into a string.
+    :param exception: exception to get the message from
+    :type exception: Exception
+    :return: the message of the exception
+    :rtype: str
+    """
+    try:
+        return str(exception)
+    except Exception:  # pylint: disable=broad-except
+        return type(exception).__name__
+
+
 def located_error(
     original_error: Exception,
     nodes: List["Node"],
@@ -134,6 +149,7 @@ def located_error(
     exceptions = (
         original_error.exceptions
         if isinstance(original_error, MultipleException)
+        and original_error.exceptions
         else [original_error]
     )
 
@@ -143,7 +159,7 @@ def located_error(
             _shallow_copy(exception)
             if is_coercible_exception(exception)
             else graphql_error_from_nodes(
-                str(exception),
+                _message_of(exception),
                 nodes=nodes,
                 path=path,
                 original_error=exception,
